@@ -12,7 +12,7 @@ ms=[]
 for f in sorted(glob.glob('/verif/seeded/*/meta.json')):
     m=json.load(open(f))
     if m['property']==pid: ms.append(m['file']+': '+m['what'])
-print("Earlier authors already used the following mechanisms for this property; yours must be DIFFERENT in both the code site and the kind of trigger (prefer one that needs a multi-step history, an unusual-but-valid configuration, or two cooperating edits): " + " | ".join(ms))
+print("Earlier authors already used the following mechanisms for this property; yours must be DIFFERENT in both the code site and the kind of trigger (prefer one that needs a multi-step history, an unusual-but-valid configuration, or two cooperating edits; also consider: a second public route to the same result that bypasses your edit or is the only one affected, one object reused for several calls, the order of setter / loader / constructor calls, clones, rarely used public constructors and stage-level public APIs used directly, value classes such as negative zero, exact ties, equal neighbours, empty or length-one collections): " + " | ".join(ms))
 PY
 )
 python3 tools/mk_mutprompt.py $sid $pid "$note"
